@@ -352,13 +352,24 @@ def run(ctx):
                 continue
             selfn = fn.params[0]
             g = None
+            # local aliases of the table (memo = self._memo)
+            aliases = {t.id for a in ast.walk(fn.node)
+                       if isinstance(a, ast.Assign) and isinstance(
+                           a.value, ast.Attribute) and isinstance(
+                               a.value.value, ast.Name)
+                       and a.value.value.id == selfn
+                       and a.value.attr == fld
+                       for t in a.targets if isinstance(t, ast.Name)}
+
+            def is_table(e):
+                return (isinstance(e, ast.Attribute) and isinstance(
+                    e.value, ast.Name) and e.value.id == selfn
+                    and e.attr == fld) or (
+                        isinstance(e, ast.Name) and e.id in aliases)
             for n in ast.walk(fn.node):
                 if not (isinstance(n, ast.Assign) and any(
-                        isinstance(t, ast.Subscript) and isinstance(
-                            t.value, ast.Attribute) and isinstance(
-                                t.value.value, ast.Name)
-                        and t.value.value.id == selfn
-                        and t.value.attr == fld for t in n.targets)):
+                        isinstance(t, ast.Subscript) and is_table(t.value)
+                        for t in n.targets)):
                     continue
                 if mname == "register":
                     continue     # the public registration API itself
